@@ -103,3 +103,93 @@ func c23R10(c *Ctx) {
 	r.Check(len(bad) == 0, rule, "ReplaceTrack|stored-context-follows-bound-codec", c.P.Pos(g.PosOf(bind)), sprintf("every successful return after the new track's Bind passes one of %d store(s) of the bound codec into the stored context (or a test that the payload type is unchanged)", len(stores)),
 		"ReplaceTrack can succeed (at "+strings.Join(bad, ", ")+") without recording the codec the new track was bound with in the encoding's stored context: a later failed ReplaceTrack re-binds the current track with a stale codec list, the re-bind fails and the track's media is silently dropped")
 }
+
+// c23R12: "the remote track's stream id and track id match the sender's description". C23.R3 ties TrackRemote.id/streamID to
+// trackDetails.id/streamID; this rule ties those to the text of the SDP: a local that is stored into trackDetails.id /
+// trackDetails.streamID is never assigned the result of a cutset-trimming call (strings.Trim / TrimLeft / TrimRight with a
+// constant cutset containing letters or digits). Such a call removes any run of the cutset's characters, not a prefix:
+// `strings.TrimLeft("msid:desktop", "msid:")` yields "esktop".
+func c23R12(c *Ctx) {
+	r := c.R
+	const rule = "C23.R12"
+	idF := c.mustField(rule, "", "trackDetails", "id")
+	streamF := c.mustField(rule, "", "trackDetails", "streamID")
+	if idF == nil || streamF == nil {
+		return
+	}
+	pkg := c.P.Pkg("")
+	n := 0
+	for _, fi := range c.P.AllFuncs() {
+		if fi.Pkg != pkg || fi.Decl == nil || fi.Decl.Body == nil {
+			continue
+		}
+		info := fi.Pkg.TypesInfo
+		// locals that reach the two fields
+		feeds := map[*types.Var]string{}
+		ast.Inspect(fi.Decl.Body, func(x ast.Node) bool {
+			switch s := x.(type) {
+			case *ast.AssignStmt:
+				if len(s.Lhs) != len(s.Rhs) {
+					return true
+				}
+				for i, l := range s.Lhs {
+					if f := core.FieldOf(info, l); f == idF || f == streamF {
+						if v := core.VarOf(info, s.Rhs[i]); v != nil {
+							feeds[v] = f.Name()
+						}
+					}
+				}
+			case *ast.KeyValueExpr:
+				if id, ok := s.Key.(*ast.Ident); ok {
+					if f, ok := info.Uses[id].(*types.Var); ok && (f == idF || f == streamF) {
+						if v := core.VarOf(info, s.Value); v != nil {
+							feeds[v] = f.Name()
+						}
+					}
+				}
+			}
+			return true
+		})
+		if len(feeds) == 0 {
+			continue
+		}
+		ast.Inspect(fi.Decl.Body, func(x ast.Node) bool {
+			as, ok := x.(*ast.AssignStmt)
+			if !ok || len(as.Lhs) != len(as.Rhs) {
+				return true
+			}
+			for i, l := range as.Lhs {
+				v := core.VarOf(info, l)
+				field, isFeed := feeds[v]
+				if !isFeed {
+					continue
+				}
+				n++
+				bad := ""
+				ast.Inspect(as.Rhs[i], func(y ast.Node) bool {
+					call, ok := y.(*ast.CallExpr)
+					if !ok || len(call.Args) != 2 {
+						return true
+					}
+					fn := core.Callee(info, call)
+					if fn == nil || fn.Pkg() == nil || fn.Pkg().Path() != "strings" {
+						return true
+					}
+					switch fn.Name() {
+					case "Trim", "TrimLeft", "TrimRight":
+						if cs, ok := c06ConstString(info, call.Args[1]); ok && len(cs) > 1 && strings.ContainsAny(cs, "abcdefghijklmnopqrstuvwxyzABCDEFGHIJKLMNOPQRSTUVWXYZ0123456789") {
+							bad = "strings." + fn.Name() + "(…, " + sprintf("%q", cs) + ") treats its second argument as a set of characters"
+						}
+					}
+					return true
+				})
+				r.Check(bad == "", rule, sprintf("%s|%s<-#%d|no-cutset-trim", fi.Name(), field, n), c.P.Pos(as.Pos()), "the identifier is taken from the SDP text by slicing / prefix removal / field splitting",
+					"the value that becomes trackDetails."+field+" is produced by "+bad+": every leading/trailing character that occurs in the set is removed, so a stream or track id starting with such characters reaches the TrackRemote shortened (msid \"desktop\" -> \"esktop\")")
+			}
+			return true
+		})
+	}
+	if n == 0 {
+		r.Undecided(rule, "trackDetails|id-sources", "-", "no local feeding trackDetails.id / streamID found")
+	}
+}
